@@ -1,7 +1,16 @@
 /-
 C19 — DCC algorithms respect TS 102 687 state, rate and duty-cycle limits.
 Property theorems only.  Models: FlexModel/Dcc/{Reactive,Adaptive,Gate}.lean; Spec: FlexModel/Dcc/Spec.lean
-(transcribed from the standard); helper lemmas: FlexModel/Dcc/{ReactiveLemmas,Lemmas}.lean.
+(transcribed from the standard, relations `Clause54`, `B1`, `B2`, `OpensAt` + Annex A); helper lemmas:
+FlexModel/Dcc/{ReactiveLemmas,Lemmas}.lean.
+
+Two clauses of the property are violated by the repository as it is; both are pinned by unit tests and recorded as
+known findings, with dual-variant theorems (full strength for the repaired variant, `_partial` + `_witness` for the code
+as it is; the generated facts admit exactly the two variants, so a repair raises no alarm and any other change does):
+  C19-KF1  `is_open` subtracts `_T_EPSILON` = 1 ns from `t_go`: the gate opens up to 1 ns before the time of B.1/B.2 and
+           two admissions can be 25 ms − 1 ns apart            (`opens_*`, `min_spacing_*`)
+  C19-KF2  `_TABLE_A1` puts the Active 3 / Restrictive edge at 60 % where Table A.1 has 65 %: constant CBR in
+           [60 %, 65 %) with T_on > 500 µs converges to Restrictive, not to the band's state  (`converges_4_*`, `reactive_holds_*`)
 -/
 import FlexModel.Dcc.ReactiveLemmas
 import FlexModel.Dcc.Lemmas
@@ -15,24 +24,36 @@ open FlexModel.Dcc FlexModel.Dcc.Spec
 theorem generated_state_order :
     Generated.Dcc.stateOrder = [0, 1, 2, 3, 4] ∧ Generated.Dcc.stateValues = [0, 1, 2, 3, 4] := by decide
 
-/-- my transcription of Annex A is self-consistent: T_off is the inverse of the packet rate in every row -/
-theorem spec_toff_is_inverse_rate (a2 : Bool) :
-    List.zipWith (· * ·) (annex a2).rates (annex a2).toffs = [1000000, 1000000, 1000000, 1000000, 1000000] := by
-  cases a2 <;> decide
+/-- generated `_TABLE_A1` / `_TABLE_A2`: every state's packet rate and T_off are those of Tables A.1 / A.2 -/
+theorem generated_rows_are_annexA (a2 : Bool) : rowsMatchB (codeTable a2) (annex a2) = true := rm_code a2
 
-/-- generated `_TABLE_A1` / `_TABLE_A2` = Tables A.1 / A.2: per-state rate and T_off, and the band lookup agrees for
-every CBR in [0,1] (a changed table value re-opens this) -/
-theorem generated_tables_are_annexA (a2 : Bool) :
-    rowsMatchB (codeTable a2) (annex a2) = true ∧
-    ∀ c : Int, 0 ≤ c → c ≤ 10000 → target (codeTable a2) c = band (annex a2) c :=
-  ⟨rm_code a2, target_code a2⟩
+/-- generated `_TABLE_A2` = Table A.2: the band lookup agrees for every CBR in [0,1] -/
+theorem generated_tableA2_is_annexA2 (c : Int) (h0 : 0 ≤ c) (h1 : c ≤ 10000) :
+    target (codeTable true) c = band (annex true) c := target_code true c h0 h1 (Or.inl rfl)
 
-/-- the Annex A bands partition [0,1]: every CBR lies in the band of exactly one state, namely `band` -/
-theorem bands_partition (a2 : Bool) (c : Int) (h0 : 0 ≤ c) (h1 : c ≤ 10000) :
-    inBand (annex a2) (band (annex a2) c) c ∧ ∀ s, inBand (annex a2) s c → s = band (annex a2) c :=
-  ⟨(inBand_iff a2 c h0 h1 _).2 rfl, fun s hs => (inBand_iff a2 c h0 h1 s).1 hs⟩
+/-- generated `_TABLE_A1` is one of exactly two tables: Table A.1 (repaired) or the known variant C19-KF2 -/
+theorem generated_tableA1_variant : codeTable false = stdA1 ∨ codeTable false = knownA1 := codeA1_variant
 
-example : inBand tableA2 3 6499 ∧ inBand tableA2 4 6500 ∧ inBand tableA1 3 5999 ∧ inBand tableA1 4 6000 := by
+/-- the repaired Table A.1 looks every CBR in [0,1] up as Annex A does (full strength) -/
+theorem tableA1_lookup_repaired (c : Int) (h0 : 0 ≤ c) (h1 : c ≤ 10000) : target stdA1 c = band tableA1 c :=
+  target_stdA1 c h0 h1
+
+/-- the code's tables as they are: the lookup is the Annex A band for every CBR in [0,1], except (Table A.1 only, and
+only in the known variant) CBR in [60 %, 65 %) -/
+theorem generated_tables_are_annexA_partial (a2 : Bool) (c : Int) (h0 : 0 ≤ c) (h1 : c ≤ 10000) (hg : lookupOK a2 c) :
+    target (codeTable a2) c = band (annex a2) c := target_code a2 c h0 h1 hg
+
+/-- C19-KF2 witness: in the known variant 62 % is looked up as Restrictive although it lies in the band of Active 3 -/
+theorem tableA1_lookup_witness : target knownA1 6200 = 4 ∧ band tableA1 6200 = 3 ∧ inBand tableA1 3 6200 := by
+  refine ⟨by decide, by decide, ?_⟩
+  simp [inBand, lo, hi, tableA1]
+
+/-- `DccReactive.__init__` selects Table A.2 exactly for `t_on_max_us ≤ 500` (Annex A: Table A.2 is for T_on ≤ 500 µs) -/
+theorem table_selection (v : Int) : codeTable (useA2 v) = if v ≤ 500 then codeA2 else codeA1 := by
+  unfold codeTable useA2
+  by_cases h : v ≤ 500 <;> simp [h]
+
+example : inBand tableA2 3 6499 ∧ inBand tableA2 4 6500 ∧ inBand tableA1 3 6499 ∧ inBand tableA1 4 6500 := by
   simp [inBand, lo, hi, tableA1, tableA2]
 
 /-! ## Reactive approach: behaviour for every CBR sequence -/
@@ -61,6 +82,8 @@ theorem state_bounded (a2 : Bool) (s : Nat) (c : Int) (hs : s ≤ 4) : (update (
   · exact hs
   · exact stepIdx_le4 s _ hs (target_le _ (rowsMatch_states (rm_code a2)) c)
 
+example : (update (codeTable false) 4 10000).1 = 4 ∧ (update (codeTable true) 0 0).1 = 0 := by decide
+
 /-- CBR outside [0,1] is rejected and leaves the state unchanged; inside it is accepted -/
 theorem rejects_outside_unit (a2 : Bool) (s : Nat) (c : Int) (hs : s ≤ 4) :
     ((c < 0 ∨ 10000 < c) → update (codeTable a2) s c = (s, .valueError)) ∧
@@ -79,33 +102,85 @@ theorem output_is_row (a2 : Bool) (s : Nat) (c : Int) (hs : s ≤ 4) (h : ¬ (c 
   obtain ⟨r, t, hu, h1, h2⟩ := update_valid hm s hs c h
   exact ⟨r, t, by rw [hu], by rw [hu]; exact h1, by rw [hu]; exact h2⟩
 
-/-- constant input: after four (or more) evaluations the state is the Annex A band of the input, from every
-start state, for both tables (every n ≥ 4, so it also stays there) -/
-theorem converges_4 (a2 : Bool) (s : Nat) (c : Int) (n : Nat) (hs : s ≤ 4) (h0 : 0 ≤ c) (h1 : c ≤ 10000)
-    (hn : 4 ≤ n) : run (codeTable a2) s (List.replicate n c) = band (annex a2) c := by
-  have ht := target_code a2 c h0 h1
-  have hd := run_replicate_dist (codeTable a2) c (by omega) n s
+/-- constant input, any table whose lookup of that input is the Annex A band: after four (or more) evaluations the
+state is that band, from every start state (every n ≥ 4, so it also stays there) -/
+theorem converges_4_of_lookup (tbl : Table) (a2 : Bool) (s : Nat) (c : Int) (n : Nat) (hs : s ≤ 4) (h0 : 0 ≤ c)
+    (h1 : c ≤ 10000) (hn : 4 ≤ n) (ht : target tbl c = band (annex a2) c) :
+    run tbl s (List.replicate n c) = band (annex a2) c := by
+  have hd := run_replicate_dist tbl c (by omega) n s
   have h4 := dist_le4 s (band (annex a2) c) hs (band_le4 a2 c)
   rw [ht] at hd
   exact (dist_zero _ _).1 (by omega)
 
-/-- four evaluations are needed in general (non-vacuity / tightness): from Relaxed, CBR 70 % takes exactly four -/
-example : run codeA2 0 [7000, 7000, 7000] = 3 ∧ run codeA2 0 [7000, 7000, 7000, 7000] = 4 := by decide
+/-- full strength for Table A.2 as generated: every constant CBR in [0,1], every start state -/
+theorem converges_4_A2 (s : Nat) (c : Int) (n : Nat) (hs : s ≤ 4) (h0 : 0 ≤ c) (h1 : c ≤ 10000) (hn : 4 ≤ n) :
+    run (codeTable true) s (List.replicate n c) = band (annex true) c :=
+  converges_4_of_lookup _ true s c n hs h0 h1 hn (target_code true c h0 h1 (Or.inl rfl))
 
-/-- the whole reactive clause of the property, as the Spec trace checker, for every history (any inputs, valid or
-not, any length) from every state, for both tables as generated from the source -/
-theorem reactive_holds (a2 : Bool) (s0 : Nat) (cs : List Int) (hs : s0 ≤ 4) :
+/-- full strength for the repaired Table A.1 -/
+theorem converges_4_repaired (s : Nat) (c : Int) (n : Nat) (hs : s ≤ 4) (h0 : 0 ≤ c) (h1 : c ≤ 10000) (hn : 4 ≤ n) :
+    run stdA1 s (List.replicate n c) = band (annex false) c :=
+  converges_4_of_lookup _ false s c n hs h0 h1 hn (target_stdA1 c h0 h1)
+
+/-- the code as it is, both tables: every constant CBR in [0,1] outside the C19-KF2 region (nothing is excluded
+for Table A.2, nor for Table A.1 once it is repaired).  Missing for full strength: Table A.1, CBR in [60 %, 65 %) -/
+theorem converges_4_partial (a2 : Bool) (s : Nat) (c : Int) (n : Nat) (hs : s ≤ 4) (h0 : 0 ≤ c) (h1 : c ≤ 10000)
+    (hn : 4 ≤ n) (hg : lookupOK a2 c) : run (codeTable a2) s (List.replicate n c) = band (annex a2) c :=
+  converges_4_of_lookup _ a2 s c n hs h0 h1 hn (target_code a2 c h0 h1 hg)
+
+/-- C19-KF2 witness: constant 62 % on the known Table A.1 ends (and stays) in Restrictive, the band's state is Active 3 -/
+theorem converges_4_witness :
+    run knownA1 3 (List.replicate 4 6200) = 4 ∧ run knownA1 0 (List.replicate 9 6200) = 4 ∧ band (annex false) 6200 = 3 := by
+  decide
+
+/-- four evaluations are needed in general (non-vacuity / tightness): from Relaxed, CBR 70 % takes exactly four;
+and the partial theorem is not vacuous for Table A.1 -/
+example : run codeA2 0 [7000, 7000, 7000] = 3 ∧ run codeA2 0 [7000, 7000, 7000, 7000] = 4 := by decide
+example : lookupOK false 5999 ∧ lookupOK false 6500 ∧ run (codeTable false) 0 (List.replicate 4 5999) = 3 :=
+  ⟨Or.inr (Or.inr (Or.inl (by decide))), Or.inr (Or.inr (Or.inr (by decide))), by decide⟩
+
+/-- adjacency and Annex A rows hold for every history (any inputs, valid or not, any length) from every state, for
+both tables as generated — these two clauses are not affected by C19-KF2 -/
+theorem reactive_adj_rows (a2 : Bool) (s0 : Nat) (cs : List Int) (hs : s0 ≤ 4) :
+    adjOK s0 (trace (codeTable a2) s0 cs) = true ∧ rowsOK (annex a2) (trace (codeTable a2) s0 cs) = true :=
+  ⟨adj_trace (rm_code a2) cs s0 hs, rows_trace (rm_code a2) cs s0 hs⟩
+
+/-- the whole reactive clause of the property, as the Spec trace checker, for every history whose inputs avoid the
+C19-KF2 region (Table A.2: every history; repaired Table A.1: every history) -/
+theorem reactive_holds_partial (a2 : Bool) (s0 : Nat) (cs : List Int) (hs : s0 ≤ 4) (hg : ∀ c ∈ cs, lookupOK a2 c) :
     reactiveHolds (annex a2) s0 (trace (codeTable a2) s0 cs) = true := by
   have hm := rm_code a2
   simp only [reactiveHolds, Bool.and_eq_true]
   exact ⟨⟨adj_trace hm cs s0 hs, rows_trace hm cs s0 hs⟩,
-    conv_trace hm (fun _ => True) (fun c h0 h1 _ => target_code a2 c h0 h1) (band_le4 a2) cs s0 none 0 hs
+    conv_trace hm (lookupOK a2) (fun c h0 h1 hc => target_code a2 c h0 h1 hc) (band_le4 a2) cs s0 none 0 hs
+      hg (fun _ h => by cases h)⟩
+
+/-- full strength, Table A.2 as generated: every history -/
+theorem reactive_holds_A2 (s0 : Nat) (cs : List Int) (hs : s0 ≤ 4) :
+    reactiveHolds (annex true) s0 (trace (codeTable true) s0 cs) = true :=
+  reactive_holds_partial true s0 cs hs (fun _ _ => Or.inl rfl)
+
+/-- full strength, repaired Table A.1: every history -/
+theorem reactive_holds_repaired (s0 : Nat) (cs : List Int) (hs : s0 ≤ 4) :
+    reactiveHolds (annex false) s0 (trace stdA1 s0 cs) = true := by
+  have hm : rowsMatchB stdA1 (annex false) = true := by decide
+  simp only [reactiveHolds, Bool.and_eq_true]
+  exact ⟨⟨adj_trace hm cs s0 hs, rows_trace hm cs s0 hs⟩,
+    conv_trace hm (fun _ => True) (fun c h0 h1 _ => target_stdA1 c h0 h1) (band_le4 false) cs s0 none 0 hs
       (fun _ _ => trivial) (fun _ h => by cases h)⟩
 
-/-- non-vacuity: a concrete history with rejected inputs in between passes the checker, and the checker can fail -/
+/-- C19-KF2 witness on the trace checker: four evaluations of 62 % from Active 3 on the known Table A.1 -/
+theorem reactive_holds_witness :
+    reactiveHolds (annex false) 3 (trace knownA1 3 [6200, 6200, 6200, 6200]) = false := by decide
+
+/-- non-vacuity: a concrete history with rejected inputs in between passes the checker, and the checker can fail on
+each of its three parts (adjacency, row, convergence) -/
 example : trace codeA2 0 [3500, -1, 3500, 10001, 9999] =
     [⟨3500, 1, 10000, 100⟩, ⟨3500, 1, 10000, 100⟩, ⟨9999, 2, 5000, 200⟩] := by decide
 example : reactiveHolds tableA2 0 [⟨7000, 2, 5000, 200⟩] = false := by decide
+example : rowsOK tableA2 [⟨3500, 1, 5000, 200⟩] = false ∧
+    convOK tableA2 none 0 [⟨7000, 3, 4000, 250⟩, ⟨7000, 3, 4000, 250⟩, ⟨7000, 3, 4000, 250⟩, ⟨7000, 3, 4000, 250⟩] = false := by
+  decide
 
 
 /-! ## Adaptive approach (clause 5.4) -/
@@ -118,16 +193,34 @@ theorem generated_defaults_are_table3 :
     Generated.Dcc.dDeltaMin, Generated.Dcc.dDeltaUpMax, Generated.Dcc.dDeltaDownMax, table3]
   norm_num
 
-/-- every accepted call computes (CBR_ITS-S, δ) exactly as equations (1)–(6) prescribe — all parameter sets, all
-states, all inputs (global CBR pair replaces the local one when both are present) -/
-theorem adaptive_update_eq_spec (p : Params) (s : AState) (l lp : Rat) (g gp : Option Rat)
-    (hl : 0 ≤ l ∧ l ≤ 1) (hlp : 0 ≤ lp ∧ lp ≤ 1) :
-    aUpdate p s l lp g gp = .ok
-      ⟨(limeric p.alpha p.beta p.cbrTarget p.deltaMax p.deltaMin p.deltaUpMax p.deltaDownMax s.cbrItsS s.delta
-          (effective l lp g gp).1 (effective l lp g gp).2).1,
-       (limeric p.alpha p.beta p.cbrTarget p.deltaMax p.deltaMin p.deltaUpMax p.deltaDownMax s.cbrItsS s.delta
-          (effective l lp g gp).1 (effective l lp g gp).2).2⟩ :=
-  aUpdate_ok p s l lp g gp ((outsideUnit_false_iff l).2 hl) ((outsideUnit_false_iff lp).2 hlp)
+/-- every accepted call relates old and new (CBR_ITS-S, δ) by the five steps of clause 5.4 (`Spec.Clause54`: the
+equations as conditions, division-free, without min/max) — all parameter sets, all states, all inputs; the global
+CBR pair replaces the local one when both are present (NOTE of clause 5.4) -/
+theorem adaptive_sat_clause54 (p : Params) (s s' : AState) (l lp : Rat) (g gp : Option Rat)
+    (h : aUpdate p s l lp g gp = .ok s') :
+    Clause54 (Params.toP54 p) s.cbrItsS s.delta (effective l lp g gp).1 (effective l lp g gp).2 s'.cbrItsS s'.delta := by
+  rw [aUpdate_val p s s' l lp g gp h]
+  exact modelNext_sat p s _ _
+
+/-- … and clause 5.4 determines the result, so the code computes *exactly* the prescribed pair: whatever pair
+satisfies the five steps is the pair the call stored (and returned) -/
+theorem adaptive_exactly_clause54 (p : Params) (s s' : AState) (l lp : Rat) (g gp : Option Rat) (its' delta' : Rat)
+    (h : aUpdate p s l lp g gp = .ok s')
+    (hs : Clause54 (Params.toP54 p) s.cbrItsS s.delta (effective l lp g gp).1 (effective l lp g gp).2 its' delta') :
+    s'.cbrItsS = its' ∧ s'.delta = delta' :=
+  clause54_functional _ _ _ _ _ _ _ _ _ (adaptive_sat_clause54 p s s' l lp g gp h) hs
+
+/-- what clause 5.4 implies by itself (steps 4 and 5 only): the new δ lies in [δ_min, δ_max] when δ_min ≤ δ_max -/
+theorem clause54_bounds (P : P54) (its delta c cp its' delta' : Rat) (h : P.dmin ≤ P.dmax)
+    (hc : Clause54 P its delta c cp its' delta') : P.dmin ≤ delta' ∧ delta' ≤ P.dmax := by
+  obtain ⟨_, d3, d4, _, _, _, s4, s5⟩ := hc
+  have h4 : d4 ≤ P.dmax := by
+    by_cases hh : P.dmax < d3
+    · rw [s4.1 hh]
+    · rw [s4.2 (not_lt.mp hh)]; exact not_lt.mp hh
+  by_cases hh : d4 < P.dmin
+  · rw [s5.1 hh]; exact ⟨le_refl _, h⟩
+  · rw [s5.2 (not_lt.mp hh)]; exact ⟨not_lt.mp hh, h4⟩
 
 /-- local CBR values outside [0,1] are rejected (exactly those), and a rejected call leaves the state unchanged -/
 theorem rejects_local_outside_unit (p : Params) (s : AState) (l lp : Rat) (g gp : Option Rat) :
@@ -152,15 +245,15 @@ theorem rejects_local_outside_unit (p : Params) (s : AState) (l lp : Rat) (g gp 
   obtain ⟨e, he⟩ := hiff.1 h
   simp only [aStep, he]
 
-/-- δ returned by any accepted call lies in [δ_min, δ_max] whenever δ_min ≤ δ_max — all inputs, all states -/
+example : aUpdate ⟨0, 0, 0, 1, 0, 0, 0⟩ ⟨0, 0⟩ (-1/10000) 0 none none = .error .local ∧
+    aUpdate ⟨0, 0, 0, 1, 0, 0, 0⟩ ⟨0, 0⟩ 1 (10001/10000) none none = .error .localPrev := by decide +kernel
+
+/-- δ returned by any accepted call lies in [δ_min, δ_max] whenever δ_min ≤ δ_max — all inputs, all states;
+obtained from the clause itself (`clause54_bounds`) through `adaptive_sat_clause54` -/
 theorem delta_in_bounds (p : Params) (s s' : AState) (l lp : Rat) (g gp : Option Rat)
     (h : p.deltaMin ≤ p.deltaMax) (hu : aUpdate p s l lp g gp = .ok s') :
-    p.deltaMin ≤ s'.delta ∧ s'.delta ≤ p.deltaMax := by
-  rcases aUpdate_cases p s l lp g gp with e | ⟨e, he⟩
-  · rw [e] at hu
-    cases hu
-    exact specNext_bounds p s l lp g gp h
-  · rw [he] at hu; cases hu
+    p.deltaMin ≤ s'.delta ∧ s'.delta ≤ p.deltaMax :=
+  clause54_bounds (Params.toP54 p) _ _ _ _ _ _ h (adaptive_sat_clause54 p s s' l lp g gp hu)
 
 /-- … hence every value returned along every history (any length, rejected calls included) from any state -/
 theorem delta_in_bounds_run (p : Params) (h : p.deltaMin ≤ p.deltaMax) : ∀ (is : List AIn) (s : AState),
@@ -196,42 +289,95 @@ theorem delta_state_in_bounds (p : Params) (h : p.deltaMin ≤ p.deltaMax) (is :
       · exact hs
   exact gen is _ ⟨le_refl _, h⟩
 
+/-- the CBR pair a call uses in step 1 lies in [0,1] (the local pair is checked by the code; the global pair is NOT —
+for global values outside [0,1] nothing is claimed about CBR_ITS-S, see design notes "input space") -/
+def usedInUnit (i : AIn) : Prop :=
+  (0 ≤ (effective i.l i.lp i.g i.gp).1 ∧ (effective i.l i.lp i.g i.gp).1 ≤ 1) ∧
+  (0 ≤ (effective i.l i.lp i.g i.gp).2 ∧ (effective i.l i.lp i.g i.gp).2 ≤ 1)
+
+/-- the filter state CBR_ITS-S stays in [0,1] along every history of CBR values over [0,1] (the property's input
+space), rejected calls included -/
+theorem its_in_unit (p : Params) : ∀ (is : List AIn) (s : AState), (0 ≤ s.cbrItsS ∧ s.cbrItsS ≤ 1) →
+    (∀ i ∈ is, usedInUnit i) → 0 ≤ (is.foldl (aStep p) s).cbrItsS ∧ (is.foldl (aStep p) s).cbrItsS ≤ 1 := by
+  intro is
+  induction is with
+  | nil => intro s hs _; exact hs
+  | cons i is ih =>
+    intro s hs hi
+    refine ih _ ?_ (fun j hj => hi j (by simp [hj]))
+    have hu := hi i (by simp)
+    unfold aStep
+    split
+    · rename_i s' hs'
+      rw [aUpdate_val p s s' i.l i.lp i.g i.gp hs']
+      exact mIts_unit s _ _ hs hu.1 hu.2
+    · exact hs
+
 /-- non-vacuity: one default-parameter step, computed (δ rises from δ_min by β·(target − 0.25) clamped …) -/
 example : aUpdate ⟨2/125, 3/2500, 17/25, 3/100, 3/5000, 1/2000, -1/4000⟩ ⟨0, 3/5000⟩ (1/2) (1/2) none none
     = .ok ⟨1/4, 1363/1250000⟩ := by decide +kernel
 /-- the hypothesis δ_min ≤ δ_max is needed: with δ_min > δ_max the result exceeds δ_max -/
 example : aUpdate ⟨0, 0, 0, 1, 2, 0, 0⟩ ⟨0, 0⟩ 0 0 none none = .ok ⟨0, 2⟩ := by decide +kernel
+/-- the relation is not trivially true: a pair that skips the filter of step 1 does not satisfy it -/
+example : ¬ Clause54 ⟨2/125, 3/2500, 17/25, 3/100, 3/5000, 1/2000, -1/4000⟩ (7/10) (3/5000) 1 1 (7/10) (3/5000) := by
+  rintro ⟨_, _, _, h1, _⟩
+  unfold Step1 at h1
+  norm_num at h1
+/-- three-phase history (saturate at the floor, keep varying, drop): the filter keeps following the input while δ sits
+at δ_min, so the drop is seen from CBR_ITS-S = 63/64·…, not from a stale value -/
+example : ((List.replicate 6 (⟨1, 1, none, none⟩ : AIn)).foldl
+    (aStep ⟨2/125, 3/2500, 17/25, 3/100, 3/5000, 1/2000, -1/4000⟩) ⟨0, 3/5000⟩) = ⟨63/64, 3/5000⟩ := by decide +kernel
 
 /-! ## Gate keeper (Annex B) -/
 
-/-- obligations on the generated class constants: MIN is the double of 25 ms (not below it), MAX is 1 s,
-the tolerance ε is non-negative and at most 1 µs -/
+/-- obligations on the generated interval constants: MIN is the double of 25 ms (not below 25 ms, at most 1e-17 above),
+MAX is 1 s -/
 theorem gate_constants_ok :
-    (1 : Rat) / 40 ≤ codeCfg.minI ∧ codeCfg.minI ≤ 1 / 40 + 1 / 1000000000000 ∧ codeCfg.maxI = 1 ∧
-    0 ≤ codeCfg.eps ∧ codeCfg.eps ≤ 1 / 1000000 := by
-  simp only [codeCfg, Generated.Dcc.gateMin, Generated.Dcc.gateMax, Generated.Dcc.gateEps]
+    (1 : Rat) / 40 ≤ codeCfg.minI ∧ codeCfg.minI ≤ 1 / 40 + 1 / 100000000000000000 ∧ codeCfg.maxI = 1 := by
+  simp only [codeCfg, Generated.Dcc.gateMin, Generated.Dcc.gateMax]
   norm_num
 
+/-- generated fact with two admissible values (gen_dcc.py reads the comparison of `is_open` from the AST): the gate
+compares `t >= t_go` (repaired, ε = 0) or `t >= t_go - _T_EPSILON` with `_T_EPSILON` = 1e-9 (C19-KF1); any other
+tolerance re-opens this -/
+theorem gate_eps_variant : codeCfg = exactCfg ∨ codeCfg = kf1Cfg := by
+  have h : Generated.Dcc.gateEps = 0 ∨ Generated.Dcc.gateEps = kf1Eps := by
+    simp only [Generated.Dcc.gateEps, kf1Eps]; norm_num
+  rcases h with h | h
+  · left; simp only [codeCfg, exactCfg, h]
+  · right; simp only [codeCfg, kf1Cfg, h]
+
+theorem kf1Eps_small : 0 < kf1Eps ∧ kf1Eps ≤ 1001 / 1000000000000 := by
+  simp only [kf1Eps]; norm_num
+
 theorem codeCfg_min_le_max : codeCfg.minI ≤ codeCfg.maxI := by
-  have := gate_constants_ok; linarith [this.1, this.2.1, this.2.2.1]
+  have := gate_constants_ok; linarith [this.1, this.2.1, this.2.2]
 
-/-- the gate is open iff nothing is scheduled or `t ≥ t_go − ε`: open for sure from `t_go` on, closed for sure
-before `t_go − ε` -/
-theorem open_iff (c : GCfg) (s : GState) (t : Rat) :
-    isOpen c s t = true ↔ (s.tgo = none ∨ ∃ b, s.tgo = some b ∧ b - c.eps ≤ t) := by
-  cases h : s.tgo with
-  | none => simp [isOpen_none c s t h]
-  | some b => simp [isOpen_some c s t b h]
+theorem codeCfg_eps : 0 ≤ codeCfg.eps ∧ codeCfg.eps ≤ kf1Eps := by
+  rcases gate_eps_variant with h | h <;> rw [h]
+  · exact ⟨le_refl _, le_of_lt kf1Eps_small.1⟩
+  · exact ⟨le_of_lt kf1Eps_small.1, le_refl _⟩
 
-/-- an admitted packet schedules `t_go` exactly by equation B.1 (and records `t_pg = t`) -/
-theorem admit_eq_B1 (c : GCfg) (s : GState) (t ton : Rat) (h : (admitPkt c s t ton).2 = .admitted) :
-    (admitPkt c s t ton).1 = { s with tpg := some t, tgo := some (b1 c.minI c.maxI t ton s.delta) } ∧
-    isOpen c s t = true ∧ 0 < ton := by
-  rcases admit_cases c s t ton with ⟨_, e⟩ | ⟨_, _, e⟩ | ⟨_, _, _, e⟩ | ⟨h1, h2, _, e⟩
+/-- an admitted packet records `t_pg = t` and schedules a `t_go` that satisfies equation B.1 (`Spec.B1`: T_on_pp/δ
+defined by a product, limited piecewise to [MIN, MAX]); it was admitted with the gate open and `t_on > 0` -/
+theorem admit_sat_B1 (c : GCfg) (hc : c.minI ≤ c.maxI) (s : GState) (t ton : Rat)
+    (h : (admitPkt c s t ton).2 = .admitted) :
+    (∃ tgo, (admitPkt c s t ton).1 = { s with tpg := some t, tgo := some tgo } ∧ B1 c.minI c.maxI t ton s.delta tgo) ∧
+    isOpen c s t = true ∧ 0 < ton ∧ s.delta ≠ 0 := by
+  refine ⟨FlexModel.Dcc.admit_sat_B1 c hc s t ton h, ?_⟩
+  rcases admit_cases c s t ton with ⟨_, e⟩ | ⟨_, _, e⟩ | ⟨_, _, _, e⟩ | ⟨h1, h2, h3, _⟩
   · rw [e] at h; cases h
   · rw [e] at h; cases h
   · rw [e] at h; cases h
-  · rw [e]; exact ⟨rfl, h2, h1⟩
+  · exact ⟨h2, h1, h3⟩
+
+/-- … and B.1 determines `t_go`: the scheduled opening time is *exactly* the one the equation gives -/
+theorem admit_exactly_B1 (c : GCfg) (hc : c.minI ≤ c.maxI) (s : GState) (t ton tgo : Rat)
+    (h : (admitPkt c s t ton).2 = .admitted) (hb : B1 c.minI c.maxI t ton s.delta tgo) :
+    (admitPkt c s t ton).1.tgo = some tgo ∧ (admitPkt c s t ton).1.tpg = some t := by
+  obtain ⟨⟨tgo', e, hb'⟩, _, _, hd⟩ := admit_sat_B1 c hc s t ton h
+  rw [e, B1_unique _ _ _ _ _ _ _ hd hb hb']
+  exact ⟨rfl, rfl⟩
 
 /-- a packet is admitted iff `t_on > 0`, the gate is open (and δ ≠ 0) -/
 theorem admit_iff (c : GCfg) (s : GState) (t ton : Rat) (hd : s.delta ≠ 0) :
@@ -246,25 +392,25 @@ theorem admit_iff (c : GCfg) (s : GState) (t ton : Rat) (hd : s.delta ≠ 0) :
   · exact absurd h0 hd
   · rw [e]; exact ⟨fun _ => ⟨h1, h2⟩, fun _ => rfl⟩
 
-/-- a δ update while the gate is closed reschedules `t_go` exactly by equation B.2; otherwise only δ changes -/
-theorem update_eq_B2 (c : GCfg) (s : GState) (t d : Rat) (hd : 0 < d) :
+/-- a δ update while the gate is closed reschedules `t_go` so that equation B.2 holds between the old and the new
+schedule (`Spec.B2`), and B.2 determines the new `t_go`; otherwise (nothing admitted yet, or gate open) only δ changes -/
+theorem update_sat_B2 (c : GCfg) (hc : c.minI ≤ c.maxI) (s : GState) (t d : Rat) (hd : 0 < d) :
     (∀ a b, s.tpg = some a → s.tgo = some b → isOpen c s t = false →
-      (updDelta c s t d).1 = { s with delta := d, tgo := some (b2 c.minI c.maxI a b s.delta d) }) ∧
+      ∃ tgo, (updDelta c s t d).1 = { s with delta := d, tgo := some tgo } ∧ B2 c.minI c.maxI a b s.delta d tgo ∧
+        ∀ x, B2 c.minI c.maxI a b s.delta d x → x = tgo) ∧
     ((s.tpg = none ∨ s.tgo = none ∨ isOpen c s t = true) → (updDelta c s t d).1 = { s with delta := d }) := by
-  rcases upd_cases c s t d with ⟨h, _⟩ | ⟨_, a, b, ha, hb, ho, e⟩ | ⟨_, hh, e⟩
-  · linarith
-  · refine ⟨fun a' b' ha' hb' _ => ?_, fun h => ?_⟩
-    · rw [ha] at ha'; rw [hb] at hb'; cases ha'; cases hb'
-      rw [e]; rfl
-    · rcases h with h | h | h
+  constructor
+  · intro a b ha hb ho
+    obtain ⟨tgo, e, hb2⟩ := FlexModel.Dcc.update_sat_B2 c hc s t d a b hd ha hb ho
+    exact ⟨tgo, e, hb2, fun x hx => B2_unique _ _ _ _ _ _ _ _ (ne_of_gt hd) hx hb2⟩
+  · intro hh
+    rcases upd_cases c s t d with ⟨h, _⟩ | ⟨_, a, b, ha, hb, ho, _⟩ | ⟨_, _, e⟩
+    · linarith
+    · rcases hh with h | h | h
       · rw [ha] at h; cases h
       · rw [hb] at h; cases h
       · rw [ho] at h; cases h
-  · refine ⟨fun a b ha hb ho => ?_, fun _ => by rw [e]⟩
-    rcases hh with h | h | h
-    · rw [ha] at h; cases h
-    · rw [hb] at h; cases h
-    · rw [ho] at h; cases h
+    · rw [e]
 
 /-- non-positive `t_on` / `delta_new` are rejected without touching the state -/
 theorem gate_rejects_nonpositive (c : GCfg) (s : GState) (t x : Rat) (h : x ≤ 0) :
@@ -277,6 +423,17 @@ theorem gate_rejects_nonpositive (c : GCfg) (s : GState) (t x : Rat) (h : x ≤ 
     · exact e
     all_goals linarith
 
+example : admitPkt codeCfg (GState.init 1) 0 0 = (GState.init 1, .valueError) ∧
+    updDelta codeCfg (GState.init 1) 0 (-1) = (GState.init 1, .valueError) := by decide +kernel
+
+/-- what B.1 and B.2 imply by themselves: the closed interval lies within [MIN, MAX] -/
+theorem B_interval (mn mx tpg tgo : Rat) (h : mn ≤ mx)
+    (hb : (∃ ton d, B1 mn mx tpg ton d tgo) ∨ (∃ old dO dN, B2 mn mx tpg old dO dN tgo)) :
+    tpg + mn ≤ tgo ∧ tgo ≤ tpg + mx := by
+  rcases hb with ⟨_, _, x, iv, _, hl, e⟩ | ⟨_, _, _, x, iv, _, hl, e⟩ <;>
+  · have := limited_bounds mn mx x iv h hl
+    constructor <;> linarith [this.1, this.2]
+
 /-- invariant over every history of admissions, δ updates and queries (any times, any order, any length):
 the closed interval `t_go − t_pg` stays within [MIN, MAX] -/
 theorem interval_bounds (c : GCfg) (hc : c.minI ≤ c.maxI) (d0 : Rat) (hd : d0 ≠ 0) (ops : List GOp) (a b : Rat)
@@ -288,19 +445,99 @@ theorem interval_bounds (c : GCfg) (hc : c.minI ≤ c.maxI) (d0 : Rat) (hd : d0 
   · rw [ha] at hp; rw [hb] at hg; cases hp; cases hg
     constructor <;> linarith
 
-/-- consecutive admissions are at least MIN − ε apart, for every history -/
-theorem min_spacing (c : GCfg) (hc : c.minI ≤ c.maxI) (d0 : Rat) (hd : d0 ≠ 0) (ops : List GOp) :
+example : (gRun codeCfg (GState.init (3/5000)) [.admitPkt 10 (1/1000), .upd (10001/1000) (1/1000)]).tgo = some (53/5) ∧
+    (gRun codeCfg (GState.init (3/5000)) [.admitPkt 10 (1/1000)]).tpg = some 10 := by decide +kernel
+
+/-! ### "opens exactly at the times given by B.1/B.2" (C19-KF1) -/
+
+/-- full strength, repaired comparison (ε = 0): open iff nothing is scheduled or `t_go ≤ t` -/
+theorem opens_exactly (c : GCfg) (he : c.eps = 0) (s : GState) (t : Rat) : OpensAt s.tgo t (isOpen c s t) := by
+  unfold OpensAt
+  cases h : s.tgo with
+  | none => simp [isOpen_none c s t h]
+  | some b => simp [isOpen_some c s t b h, he]
+
+theorem opens_exactly_repaired (s : GState) (t : Rat) : OpensAt s.tgo t (isOpen exactCfg s t) :=
+  opens_exactly exactCfg rfl s t
+
+/-- the code as it is (any ε ≥ 0): open for sure from `t_go` on, closed for sure before `t_go − ε`.
+Missing for full strength: the decisions at `t_go − ε ≤ t < t_go` -/
+theorem opens_partial (c : GCfg) (he : 0 ≤ c.eps) (s : GState) (t b : Rat) (hb : s.tgo = some b) :
+    (b ≤ t → isOpen c s t = true) ∧ (t < b - c.eps → isOpen c s t = false) := by
+  constructor
+  · intro h; exact (isOpen_some c s t b hb).2 (by linarith)
+  · intro h
+    cases hh : isOpen c s t with
+    | false => rfl
+    | true => have := (isOpen_some c s t b hb).1 hh; linarith
+
+theorem opens_code_partial (s : GState) (t b : Rat) (hb : s.tgo = some b) :
+    (b ≤ t → isOpen codeCfg s t = true) ∧ (t < b - kf1Eps → isOpen codeCfg s t = false) := by
+  have h := opens_partial codeCfg codeCfg_eps.1 s t b hb
+  exact ⟨h.1, fun ht => h.2 (by linarith [codeCfg_eps.2])⟩
+
+/-- C19-KF1 witness: with the 1 ns tolerance the gate is open half a nanosecond before the B.1 time -/
+theorem opens_witness : let s := (admitPkt kf1Cfg (GState.init 1) 0 (1/1000)).1
+    s.tgo = some kf1Cfg.minI ∧ isOpen kf1Cfg s (1/40 - 1/2000000000) = true ∧
+    ¬ OpensAt s.tgo (1/40 - 1/2000000000) (isOpen kf1Cfg s (1/40 - 1/2000000000)) := by
+  have h1 : (admitPkt kf1Cfg (GState.init 1) 0 (1/1000)).1.tgo = some kf1Cfg.minI := by decide +kernel
+  have h2 : isOpen kf1Cfg (admitPkt kf1Cfg (GState.init 1) 0 (1/1000)).1 (1/40 - 1/2000000000) = true := by decide +kernel
+  refine ⟨h1, h2, fun h => ?_⟩
+  rcases h.1 h2 with hn | ⟨b, hb, hle⟩
+  · rw [h1] at hn; cases hn
+  · rw [h1] at hb; cases hb
+    have : (1 : Rat) / 40 ≤ kf1Cfg.minI := gate_constants_ok.1
+    linarith
+
+/-! ### "never admits two packets less than 25 ms apart" (C19-KF1) -/
+
+/-- consecutive admissions are at least MIN − ε apart, for every history (any times, any order — no monotone-clock
+assumption) -/
+theorem min_spacing_partial (c : GCfg) (hc : c.minI ≤ c.maxI) (d0 : Rat) (hd : d0 ≠ 0) (ops : List GOp) :
     spaced (c.minI - c.eps) none (admissions c (GState.init d0) ops) = true :=
   spaced_run c hc ops _ (ginv_init c d0 hd)
 
-/-- … for the code's constants: never two admissions less than 25 ms − 1 µs apart (ε ≤ 1 µs discharged on the
-generated constant) -/
-theorem min_spacing_code (d0 : Rat) (hd : d0 ≠ 0) (ops : List GOp) :
-    spaced (gMin - 1 / 1000000) none (admissions codeCfg (GState.init d0) ops) = true := by
-  refine spaced_mono _ _ ?_ _ _ (min_spacing codeCfg codeCfg_min_le_max d0 hd ops)
+/-- full strength for a gate without tolerance: never two admissions less than MIN apart -/
+theorem min_spacing_exact (c : GCfg) (hc : c.minI ≤ c.maxI) (he : c.eps = 0) (d0 : Rat) (hd : d0 ≠ 0) (ops : List GOp) :
+    spaced c.minI none (admissions c (GState.init d0) ops) = true := by
+  have := min_spacing_partial c hc d0 hd ops
+  rwa [he, sub_zero] at this
+
+/-- full strength, the code's constants with the repaired comparison: never less than 25 ms apart -/
+theorem min_spacing_repaired (d0 : Rat) (hd : d0 ≠ 0) (ops : List GOp) :
+    spaced gMin none (admissions exactCfg (GState.init d0) ops) = true := by
+  refine spaced_mono _ _ ?_ _ _ (min_spacing_exact exactCfg codeCfg_min_le_max rfl d0 hd ops)
+  have := gate_constants_ok
+  simp only [gMin, exactCfg]
+  have h1 : (1 : Rat) / 40 ≤ Generated.Dcc.gateMin := this.1
+  linarith
+
+/-- the code as it is (either variant): never less than 25 ms − 1 ns apart (ε as generated, ≤ the double of 1e-9).
+Missing for full strength: the last nanosecond -/
+theorem min_spacing_code_partial (d0 : Rat) (hd : d0 ≠ 0) (ops : List GOp) :
+    spaced (gMin - kf1Eps) none (admissions codeCfg (GState.init d0) ops) = true := by
+  refine spaced_mono _ _ ?_ _ _ (min_spacing_partial codeCfg codeCfg_min_le_max d0 hd ops)
   have := gate_constants_ok
   simp only [gMin]
-  linarith [this.1, this.2.2.2.2]
+  linarith [this.1, codeCfg_eps.2]
+
+/-- the code once the comparison is repaired (the generated ε is 0): full strength -/
+theorem min_spacing_code_exact (he : codeCfg = exactCfg) (d0 : Rat) (hd : d0 ≠ 0) (ops : List GOp) :
+    spaced gMin none (admissions codeCfg (GState.init d0) ops) = true := by
+  rw [he]; exact min_spacing_repaired d0 hd ops
+
+/-- C19-KF1 witness: δ = 1, packets at 0 and at 25 ms − 0.5 ns are both admitted -/
+theorem min_spacing_witness :
+    admissions kf1Cfg (GState.init 1) [.admitPkt 0 (1/1000), .admitPkt (1/40 - 1/2000000000) (1/1000)]
+      = [0, 1/40 - 1/2000000000] ∧
+    spaced gMin none (admissions kf1Cfg (GState.init 1) [.admitPkt 0 (1/1000), .admitPkt (1/40 - 1/2000000000) (1/1000)])
+      = false := by
+  have h : admissions kf1Cfg (GState.init 1) [.admitPkt 0 (1/1000), .admitPkt (1/40 - 1/2000000000) (1/1000)]
+      = [0, 1/40 - 1/2000000000] := by decide +kernel
+  refine ⟨h, ?_⟩
+  rw [h]; decide +kernel
+
+/-! ### "never stays closed longer than 1 s", "at most one packet per opening" (both variants) -/
 
 /-- after an admission at `a` the gate is open again at every `t ≥ a + MAX`, whatever δ updates happened since -/
 theorem never_closed_longer_than_max (c : GCfg) (hc : c.minI ≤ c.maxI) (he : 0 ≤ c.eps) (d0 : Rat) (hd : d0 ≠ 0)
@@ -318,25 +555,30 @@ theorem never_closed_longer_than_1s (d0 : Rat) (hd : d0 ≠ 0) (ops : List GOp) 
     isOpen codeCfg (gRun codeCfg (GState.init d0) ops) t = true := by
   have hl := tpg_last codeCfg codeCfg_min_le_max ops _ (ginv_init codeCfg d0 hd)
   have hk := gate_constants_ok
-  refine never_closed_longer_than_max codeCfg codeCfg_min_le_max hk.2.2.2.1 d0 hd ops a t (by rw [hl]; exact ha) ?_
-  rw [hk.2.2.1]; simpa [gMax] using ht
+  refine never_closed_longer_than_max codeCfg codeCfg_min_le_max codeCfg_eps.1 d0 hd ops a t (by rw [hl]; exact ha) ?_
+  rw [hk.2.2]; simpa [gMax] using ht
+
+/-- non-vacuity: δ_min with a 1 ms packet is limited to 1 s, a later cut of δ cannot push the opening beyond it -/
+example : (admissions codeCfg (GState.init (3/5000)) [.admitPkt 10 (1/1000), .upd (101/10) (1/1000000)]).foldl
+      (fun _ x => some x) none = some 10 ∧
+    isOpen codeCfg (gRun codeCfg (GState.init (3/5000)) [.admitPkt 10 (1/1000), .upd (101/10) (1/1000000)]) 11 = true ∧
+    isOpen codeCfg (gRun codeCfg (GState.init (3/5000)) [.admitPkt 10 (1/1000), .upd (101/10) (1/1000000)]) (109/10) = false := by
+  decide +kernel
 
 /-- at most one packet per opening: an admission closes the gate — it stays closed at every time before
 `t + MIN − ε`, in particular at `t` itself, so a second packet presented then is rejected -/
 theorem one_per_opening (c : GCfg) (hc : c.minI ≤ c.maxI) (s : GState) (t ton : Rat)
     (h : (admitPkt c s t ton).2 = .admitted) (t' ton' : Rat) (ht' : t' < t + c.minI - c.eps) (hton : 0 < ton') :
     isOpen c (admitPkt c s t ton).1 t' = false ∧ (admitPkt c (admitPkt c s t ton).1 t' ton').2 = .rejected := by
-  obtain ⟨e, _, _⟩ := admit_eq_B1 c s t ton h
-  have hb := clampI_bounds c (ton / s.delta) hc
+  obtain ⟨⟨tgo, e, hb⟩, _, _, _⟩ := admit_sat_B1 c hc s t ton h
+  have hiv := B_interval c.minI c.maxI t tgo hc (Or.inl ⟨_, _, hb⟩)
   have hclosed : isOpen c (admitPkt c s t ton).1 t' = false := by
     rw [e]
-    cases hh : isOpen c { s with tpg := some t, tgo := some (b1 c.minI c.maxI t ton s.delta) } t' with
+    cases hh : isOpen c { s with tpg := some t, tgo := some tgo } t' with
     | false => rfl
     | true =>
       have := (isOpen_some c _ t' _ rfl).1 hh
-      simp only [b1] at this
-      have h1 : c.minI ≤ min (max (ton / s.delta) c.minI) c.maxI := hb.1
-      linarith
+      linarith [hiv.1]
   refine ⟨hclosed, ?_⟩
   rcases admit_cases c (admitPkt c s t ton).1 t' ton' with ⟨h1, _⟩ | ⟨_, _, e2⟩ | ⟨_, h2, _⟩ | ⟨_, h2, _⟩
   · linarith
@@ -344,17 +586,26 @@ theorem one_per_opening (c : GCfg) (hc : c.minI ≤ c.maxI) (s : GState) (t ton 
   · rw [hclosed] at h2; cases h2
   · rw [hclosed] at h2; cases h2
 
-/-- for the code's constants the gate is closed at the admission instant itself (ε < 25 ms) -/
+/-- for the code's constants (either variant) the gate is closed at the admission instant itself (ε < 25 ms) -/
 theorem one_per_opening_code (s : GState) (t ton ton' : Rat) (h : (admitPkt codeCfg s t ton).2 = .admitted)
     (hton : 0 < ton') : (admitPkt codeCfg (admitPkt codeCfg s t ton).1 t ton').2 = .rejected := by
   have hk := gate_constants_ok
-  exact (one_per_opening codeCfg codeCfg_min_le_max s t ton h t ton' (by linarith [hk.1, hk.2.2.2.2]) hton).2
+  have he := codeCfg_eps
+  have hs := kf1Eps_small
+  exact (one_per_opening codeCfg codeCfg_min_le_max s t ton h t ton' (by linarith [hk.1, he.2, hs.2]) hton).2
 
-/-- non-vacuity: the docstring scenario (δ = 0.01, T_on = 1 ms → closed for 100 ms), with exact constants -/
+/-- non-vacuity: the docstring scenario (δ = 0.01, T_on = 1 ms → closed for 100 ms), with exact constants; the seeded
+class "update after a limited interval": B.2 rescales the *limited* 1 s, not T_on/δ -/
 example : admissions ⟨1/40, 1, 0⟩ (GState.init (1/100))
     [.admitPkt 0 (1/1000), .admitPkt 0 (1/1000), .admitPkt (99/1000) (1/1000), .admitPkt (1/10) (1/1000)] = [0, 1/10] := by
   decide +kernel
 example : (gRun ⟨1/40, 1, 0⟩ (GState.init (1/100)) [.admitPkt 0 (1/1000), .upd (1/100) (1/50)]).tgo = some (1/20) := by
+  decide +kernel
+example : (gRun ⟨1/40, 1, 0⟩ (GState.init (3/5000)) [.admitPkt 10 (1/1000), .upd (10001/1000) (1/1000)]).tgo = some (53/5) ∧
+    (10 : Rat) + (1/1000) / (1/1000) = 11 := by
+  decide +kernel
+example : (gRun ⟨1/40, 1, 0⟩ (GState.init (1/1000)) [.admitPkt 10 (1/5000), .upd (10004/1000) (3/100), .upd (10015/1000) (1/50)]).tgo
+    = some (10 + 3/80) := by
   decide +kernel
 
 end Props.C19
